@@ -13,7 +13,7 @@
 From Coq Require Import ZArith List Bool Permutation Sorting.Sorted String.
 From Gen Require Import MorganConsts.
 From Model Require Import PyBase PyHash Graph Morgan Stereo StereoRegistry Writer ChiralMorgan.
-From Proofs Require Import MorganProofs WriterInvProofs WriterStereoExt BfsExt BfsExt2 TraverseOrderExt InsertionOrderExt InsertionOrderExt2 ChiralMorganProofs StereoProofs StereoOrderExt StereoOrderExt2 RegistryRemapExt EnvLaws CtMapOrderExt AllStereoExt SameStereo EqHashExt ChiralDiscreteExt ChiralOrderExt MorganChargeRefuted ChiralReinsertExt ChiralReinsertBool MorganConstsProofs.
+From Proofs Require Import MorganProofs WriterInvProofs WriterStereoExt BfsExt BfsExt2 TraverseOrderExt InsertionOrderExt InsertionOrderExt2 ChiralMorganProofs StereoProofs StereoOrderExt StereoOrderExt2 RegistryRemapExt EnvLaws CtMapOrderExt AllStereoExt SameStereo EqHashExt ChiralDiscreteExt ChiralOrderExt MorganChargeRefuted ChiralReinsertExt ChiralReinsertBool MorganConstsProofs MolPermDecide ChiralReinsertEq.
 Import ListNotations.
 Open Scope Z_scope.
 
@@ -1047,3 +1047,46 @@ Theorem C01_source_constants_match_model :
      "morgan[n] = -morgan[n]"; "morgan[n] = -morgan[n]"; "morgan[n] = -morgan[n]"; "morgan = _morgan(morgan, self.int_adjacency)"].
 Proof. exact source_constants_match_model. Qed.
 Print Assumptions C01_source_constants_match_model.
+
+(* mol_perm (another insertion order of atoms, adjacency rows and neighbours) is decidable: sort by atom number and compare *)
+Theorem C01_mol_perm_decidable : forall g g' : mol, mol_perm_b g g' = true -> mol_perm g g'.
+Proof. exact mol_perm_b_sound. Qed.
+Print Assumptions C01_mol_perm_decidable.
+
+(* C01_chiral_morgan_two_descriptions with EVERY hypothesis a computation: exactly what the check evaluates on real rebuilt molecules *)
+Theorem C01_chiral_morgan_two_descriptions_fully_decidable :
+  forall (h : list Z -> Z) (g g1 : mol) (tabs tabs1 : cmtabs) (flipc : Z * Z -> bool) (ao ao1 : labels) (ord ord1 : cmorders),
+  mol_perm_b (strip g) (strip g1) = true -> two_desc_b h g g1 tabs tabs1 flipc ao ao1 ord ord1 = true ->
+  cmres_perm (chiral_morgan h g tabs ao ord) (chiral_morgan h g1 tabs1 ao1 ord1).
+Proof. exact chiral_morgan_two_descriptions_dec. Qed.
+Print Assumptions C01_chiral_morgan_two_descriptions_fully_decidable.
+
+(* ... so the weight of every atom is the same in the two descriptions *)
+Theorem C01_chiral_weights_two_descriptions :
+  forall (h : list Z -> Z) (g g1 : mol) (tabs tabs1 : cmtabs) (flipc : Z * Z -> bool) (ao ao1 W W1 : labels)
+         (tr tr1 : list labels) (ord ord1 : cmorders),
+  mol_perm_b (strip g) (strip g1) = true -> two_desc_b h g g1 tabs tabs1 flipc ao ao1 ord ord1 = true ->
+  chiral_morgan h g tabs ao ord = Ok (W, tr) -> chiral_morgan h g1 tabs1 ao1 ord1 = Ok (W1, tr1) -> NoDup (keys W) ->
+  forall n, lbl W1 n = lbl W n.
+Proof. exact chiral_weights_two_descriptions. Qed.
+Print Assumptions C01_chiral_weights_two_descriptions.
+
+(* == (both directions) and hash of the two descriptions, the weights being what the chiral-Morgan model computes on each side *)
+Theorem C01_canonical_eq_hash_two_descriptions :
+  forall (h : list Z -> Z) (str_hash : string -> Z) (ring ring' : Z -> bool) (g g1 : mol) (s tb tb' : Z -> Z) (o : opts)
+         (tabs tabs' : stabs) (ctabs ctabs1 : cmtabs) (flipc : Z * Z -> bool) (flipw : Z -> Z -> bool) (ao ao1 W : labels) (tr : list labels)
+         (ord ord1 : cmorders),
+  mol_perm (strip g) (strip g1) -> wf_mol g1 = true -> wf_mol (strip (ren_mol s g1)) = true ->
+  (forall x y, s x = s y -> x = y) -> s 0 = 0 -> (forall n, In n (ids g1) -> ring' (s n) = ring n) -> o_mapping o = false ->
+  mol_perm (ren_mol s (strip g)) (strip (ren_mol s g1)) ->
+  same_atom_stereo g (ren_mol s g1) s tabs tabs' -> same_ct_stereo g (ren_mol s g1) s tabs tabs' flipw ->
+  atoms_order h ring g = Ok ao -> atoms_order h ring g1 = Ok ao1 ->
+  two_desc_b h g g1 ctabs ctabs1 flipc ao ao1 ord ord1 = true ->
+  chiral_morgan h g ctabs ao ord = Ok (W, tr) -> NoDup (keys W) -> inj_on (ids g) (lbl W) ->
+  exists W' tr',
+    atoms_order h ring' (ren_mol s g1) = Ok (ren_labels s ao1) /\
+    chiral_morgan h (ren_mol s g1) (ren_cmtabs s ctabs1) (ren_labels s ao1) (ren_cmorders s ord1) = Ok (W', tr') /\
+    let d := mkDesc g (lbl W) tb tabs in let d' := mkDesc (ren_mol s g1) (lbl W') tb' tabs' in
+    mol_eq (canon_of o) d' d = true /\ mol_eq (canon_of o) d d' = true /\ mol_hash (canon_of o) str_hash d' = mol_hash (canon_of o) str_hash d.
+Proof. exact canonical_eq_hash_two_descriptions. Qed.
+Print Assumptions C01_canonical_eq_hash_two_descriptions.
